@@ -371,10 +371,35 @@ def nexus_doc(rng, hostile=True, nl="\n", force=None, with_chars=False, allow_mu
         matrices.append(dt)
         char_titles.append((title, nchar))
         feats.update(f)
+    sets_done = [False]
+
+    def emit_sets():
+        """charset statements on the LAST characters block read so far (position lists are validated against the NCHAR read
+        last, whichever block the LINK names - a reader matter outside this property; every route that parses SETS refuses
+        alike).  Position lists use a range, a single position and the keyword ALL, in random order."""
+        if sets_done[0] or not (with_chars and matrices):
+            return
+        k = len(matrices) - 1
+        title, nchar = char_titles[k]
+        if title is None and len(matrices) != 1:
+            return
+        sets_done[0] = True
+        stmts = ["  CHARSET cs1 = 1-%d;%s" % (max(1, nchar - 1), nl), "  CHARSET cs2 = %d;%s" % (nchar, nl),
+                 "  CHARSET cs3 = %s;%s" % (rng.choice(["ALL", "all", "All"]), nl)]
+        rng.shuffle(stmts)
+        s_ = "BEGIN SETS;%s" % nl
+        if title is not None:
+            s_ += "  LINK CHARACTERS = %s;%s" % (title, nl)
+        s_ += "".join(stmts[:rng.randint(1, 3)]) + "END;%s%s" % (nl, nl)
+        out.append(s_)
+        feats.add("charset")
+
     chars_left = n_char_blocks
     if chars_left and rng.random() < 0.7:
         add_chars()
         chars_left -= 1
+        if not chars_left and rng.random() < 0.5:
+            emit_sets()
     n_blocks = rng.choice([1, 1, 2, 2, 3]) if not with_chars else rng.choice([0, 1, 2])
     blocks = []
     for b in range(n_blocks):
@@ -449,22 +474,13 @@ def nexus_doc(rng, hostile=True, nl="\n", force=None, with_chars=False, allow_mu
         if chars_left and rng.random() < 0.6:
             add_chars()
             chars_left -= 1
+            if not chars_left and rng.random() < 0.5:
+                emit_sets()     # SETS right after its CHARACTERS block, i.e. BEFORE the remaining TREES blocks
     while chars_left:
         add_chars()
         chars_left -= 1
-    if with_chars and matrices and rng.random() < 0.4:
-        # charset on one (linked) matrix
-        # always the LAST characters block: position lists are validated against the NCHAR read last, whichever block
-        # the LINK names (a reader matter outside this property; every route that parses SETS refuses alike)
-        k = len(matrices) - 1
-        title, nchar = char_titles[k]
-        if title is not None or len(matrices) == 1:
-            s = "BEGIN SETS;%s" % nl
-            if title is not None:
-                s += "  LINK CHARACTERS = %s;%s" % (title, nl)
-            s += "  CHARSET cs1 = 1-%d;%s  CHARSET cs2 = %d;%sEND;%s" % (max(1, nchar - 1), nl, nchar, nl, nl)
-            out.append(s)
-            feats.add("charset")
+    if not sets_done[0] and rng.random() < 0.4:
+        emit_sets()
     if len(blocks) > 1:
         feats.add("multi-trees-block")
     for k in ("weights", "tree_comments", "alias"):
